@@ -142,6 +142,7 @@ type Engine struct {
 	inlineExternal map[string]bool
 	unrollLimit int
 	tier      string
+	nameSnap  map[string][][2]string
 	dryStop   []*LoopInfo
 	requireAllocBounds bool
 	contractFiles []string
